@@ -37,6 +37,17 @@ def handle (args : List String) : String :=
       let (c, r, lc, lr) := indexFromCoordinate s
       s!"{optNat c} {optNat r} {optBool lc} {optBool lr}"
     | none => "bad-op"
+  | ["obj", h1, h2] =>
+    -- Coordinate::set_coordinate twice on one object: each call unwraps the four parsed fields and overwrites all four
+    match decodeStr h1, decodeStr h2 with
+    | some t1, some t2 =>
+      (match indexFromCoordinate t1, indexFromCoordinate t2 with
+       | (some _, some _, some _, some _), (some c, some r, some lc, some lr) =>
+         (match coordinateFromIndexWithLock? c r lc lr with
+          | some s => s!"{c} {r} {bit lc} {bit lr} {encodeStr s}"
+          | none => "panic")
+       | _, _ => "panic")
+    | _, _ => "bad-op"
   | ["mkcoord", c, r, lc, lr] =>
     match c.toNat?, r.toNat?, lc.toNat?, lr.toNat? with
     | some c, some r, some lc, some lr =>
